@@ -20,8 +20,27 @@ def sign_carrying_outcomes(rep, F, fns, rule='R-TABLE'):
         n += 1
         bad = []
         for atoms, out in paths:
-            nf = TB.show(TB.strip_refs(out))
+            o2 = TB.strip_refs(out)
+            nf = TB.show(o2)
             ok = nf == 'arg1' or re.match(r'^take_with_sign\(.*,sign\(arg1\)\)$', nf) is not None
+            if not ok:
+                # the sign copied in place: the kernel result K (a magnitude) is returned as it is where the path establishes
+                # sign(K) == sign(x) (or sign(x) == NoSign), and with its integer negated where it establishes sign(K) != sign(x)
+                negated = o2[0] == 'with_field' and o2[2] == 'int_val' and TB.is_call(o2[3], r'ops::Neg::neg$') and TB.strip_refs(o2[3][2][0]) == ('field', o2[1], 'int_val')
+                K = o2[1] if negated else o2
+                differs = None
+                nosign = False
+                for term, (rel, val) in atoms:
+                    t_ = TB.strip_refs(term)
+                    truth = not (rel == 'eq' and val == 0)
+                    if t_[0] == 'bin' and t_[1] in ('Ne', 'Eq'):
+                        sides = {TB.show(t_[2]), TB.show(t_[3])}
+                        if TB.show(('call', 'BigInt::sign', (('field', K, 'int_val'),))).replace('BigInt::', '') in {x.replace('BigInt::', '') for x in sides} and any(x in ('sign(arg1)',) for x in sides):
+                            differs = truth if t_[1] == 'Ne' else not truth
+                        if 'sign(arg1)' in sides and any('NoSign' in x for x in sides):
+                            nosign = (not truth) if t_[1] == 'Ne' else truth
+                if TB.is_call(K, r'impl_inverse_uint_scale$') and ((negated and differs is True) or (not negated and (differs is False or nosign))):
+                    ok = True
             if not ok:
                 bad.append(([(TB.show(a[0])[:30], a[1]) for a in atoms][-2:], nf[:120]))
         if bad:
